@@ -8,8 +8,12 @@ CONSTANTS
   MaxReq = 3
   MaxBatch = 1
   Hist = TRUE
+  Reps = {1}
+  CountHist = TRUE
+  GenBug = FALSE
+  GenMod = 256
   Deliveries = {"single"}
   SplitReg = TRUE
-INVARIANTS TypeOK Partition NextRequest
+INVARIANTS TypeOK Partition NextRequest CountsLog
 PROPERTIES P_C20
 CHECK_DEADLOCK FALSE
